@@ -1,13 +1,21 @@
 import Chess.Lemmas.Budget
 import Chess.Lemmas.Go
+import Chess.Lemmas.ShareF64
 
 /-!
 # C13 — thinking time never exceeds the time available
 
 `Uci.budget` mirrors the arithmetic of `command_go` (extracted constants: latency allowance
-`Gen.latencyMs`, sleep cut `Gen.sleepCutMs`); `share w` stands for `(w as f64 * 0.02) as u64`
-(floating point is opaque to the kernel: hypothesis `ShareOK`, validated differentially).
-All statements quantify over all natural numbers, hence all `u64` clock values.
+`Gen.latencyMs`, sleep cut `Gen.sleepCutMs`); its parameter `share` is the float expression
+`(w as f64 * 0.02) as u64`, which `Chess/Model/Share.lean` models EXACTLY (`Share.shareF64`:
+u64→binary64 conversion, product with the binary64 literal, both round-to-nearest-even, truncating
+cast) — validated against real doubles by `tools/share_check.py` and against the engine's
+`info time` by the correspondence check. The bounds C13.1/2/4 hold for EVERY `share`; monotonicity
+and the low-clock statements are proved for `shareF64` itself (the former hypothesis `ShareOK` is
+now the theorem `Share.shareOK_f64`). The binary64 literal is tied to the source: the extractor
+computes significand and exponent of the text of `FRACTION_OF_TOTAL_TIME` and `fraction_is_the_source_literal`
+compares them with the constants of the model. All statements quantify over all natural numbers,
+hence all `u64` clock values.
 -/
 namespace Chess.Props.C13
 open Chess Chess.Uci
@@ -54,6 +62,34 @@ theorem no_timer_iff (wtime btime winc binc movetime : Option Nat) (infinite : B
       infinite = true ∨ (movetime = none ∧ (wtime = none ∨ btime = none ∨ winc = none ∨ binc = none)) :=
   budget_none_iff wtime btime winc binc movetime infinite side share
 
+open Chess.Share in
+/-- **C13.3′** Monotone for the engine's own float expression, no hypothesis left. -/
+theorem allotment_monotone_f64 {wt wt' bt bt' wi bi : Nat}
+    {side : Player} (hle : ownClock side wt bt ≤ ownClock side wt' bt') {infinite : Bool} {t t' : Nat}
+    (h : budget (some wt) (some bt) (some wi) (some bi) none infinite side shareF64 = some t)
+    (h' : budget (some wt') (some bt') (some wi) (some bi) none infinite side shareF64 = some t') :
+    t ≤ t' :=
+  budget_monotone_f64 hle h h'
+
+open Chess.Share in
+/-- **C13.5′** Below 7.5 s without increment the allotment is zero — with the float expression. -/
+theorem low_clock_gives_zero_f64 {wt bt bi : Nat} (h : wt < 7500) :
+    budget (some wt) (some bt) (some 0) (some bi) none false .white shareF64 = some 0 :=
+  budget_low_clock_shortens_f64 h
+
+open Chess.Share in
+/-- the float expression never exceeds its argument, is monotone, is `w / 50` exactly below 2^53 ms
+and within +61/−54 of it on all of `u64` -/
+theorem float_share_facts :
+    (∀ w, shareF64 w ≤ w) ∧ (∀ a b, a ≤ b → shareF64 a ≤ shareF64 b) ∧
+    (∀ w, w < 2 ^ 53 → shareF64 w = w / 50) ∧
+    (∀ w, w < 2 ^ 64 → w / 50 ≤ shareF64 w + 54 ∧ shareF64 w ≤ w / 50 + 61) :=
+  ⟨shareF64_le, shareF64_mono, fun _ h => shareF64_eq_div50 h, fun _ h => shareF64_near_u64 h⟩
+
+/-- the binary64 value of the source's literal (regenerated on every run) is the model's constant -/
+theorem fraction_is_the_source_literal :
+    Share.c002 = Gen.fractionMant ∧ Share.c002Exp = Gen.fractionExp := by decide
+
 /-- **C13.6 over the raw command.** `goArgs` is the argument loop of `command_go` (keywords, values,
 resets, overrides, junk — `Chess/Model/Go.lean`). For EVERY list of words after `go`: an armed
 timer is armed for at most the understood move time, else for at most the mover's own clock less
@@ -87,3 +123,7 @@ end Chess.Props.C13
 #print axioms Chess.Props.C13.no_timer_iff
 #print axioms Chess.Props.C13.raw_command_bounded
 #print axioms Chess.Props.C13.raw_arguments_fit
+#print axioms Chess.Props.C13.allotment_monotone_f64
+#print axioms Chess.Props.C13.low_clock_gives_zero_f64
+#print axioms Chess.Props.C13.float_share_facts
+#print axioms Chess.Props.C13.fraction_is_the_source_literal
